@@ -37,11 +37,14 @@ Setup == <<
   EAsg("failing", ELam(<<Req("x")>>, EIf(EBin("eq", X, N(2)), EId("zz"), X))),
   EAsg("acc2", ELam(<<Req("a"), Req("x")>>, Plus(EBin("mul", EId("a"), N(2)), X))),
   EAsg("acc3", ELam(<<Req("a"), Req("x"), Req("i")>>, Plus(Plus(EId("a"), X), I))),
-  EAsg("two", ELam(<<Req("x"), Req("i"), Req("j")>>, X))
+  EAsg("two", ELam(<<Req("x"), Req("i"), Req("j")>>, X)),
+  \* callbacks that build a list of their own while the built-in is still walking its argument
+  EAsg("allocp", ELam(<<Req("x")>>, EBin("lt", ECall(EId("sum"), <<EList(<<X, N(0)>>)>>), N(2)))),
+  EAsg("accl", ELam(<<Req("a"), Req("x")>>, Plus(EId("a"), ECall(EId("len"), <<EList(<<X, EId("a")>>)>>))))
 >>
 Mappers    == {"inc", "withidx", "optidx", "restall", "restafter", "closure", "fact", "sum", "max", "len", "two", "failing", "g"}
-Predicates == {"small", "first", "isev", "isod", "notbool", "failing", "inc"}
-Reducers   == {"acc2", "acc3", "restall", "sum", "inc"}
+Predicates == {"small", "first", "isev", "isod", "notbool", "failing", "inc", "allocp"}
+Reducers   == {"acc2", "acc3", "restall", "sum", "inc", "accl"}
 
 ElemPool == {0, 1, 2, 3}
 Lists == UNION {{EList([i \in 1..k |-> N(s[i])]) : s \in [1..k -> ElemPool]} : k \in 0..MaxL}
